@@ -4,8 +4,11 @@ import (
 	"context"
 	"errors"
 	"fmt"
+	"github.com/libp2p/go-libp2p/core/event"
+	mocknet "github.com/libp2p/go-libp2p/p2p/net/mock"
 	"strings"
 	"time"
+	"verifharness/peers"
 
 	pubsub "github.com/libp2p/go-libp2p-pubsub"
 	pubsub_pb "github.com/libp2p/go-libp2p-pubsub/pb"
@@ -78,6 +81,7 @@ func runC11(tier string, r *rng) {
 	for _, withMetrics := range []bool{false, true} {
 		runC11With(withMetrics)
 	}
+	c11Gossip()
 }
 
 func runC11With(withMetrics bool) {
@@ -136,4 +140,100 @@ func runC11With(withMetrics bool) {
 			emit("C11 payload=%s outcome=%s => verdict=%s delivered=%s", p.name, strings.TrimPrefix(oc, "late-"), verdict, deliv)
 		}
 	}
+}
+
+// c11Gossip: two real gossipsub nodes. The receiver's verifier is still busy with the first valid header when a
+// second one is gossiped; both are accepted by the verifier, so both must be shown to it and be delivered.
+func c11Gossip() {
+	ctx, cancel := context.WithTimeout(context.Background(), 20*time.Second)
+	defer cancel()
+	mn, err := mocknet.FullMeshLinked(2)
+	if err != nil {
+		panic(err)
+	}
+	defer mn.Close()
+	chain := vhdr.Chain("A", 3, time.Now().Add(-time.Minute).UnixNano(), 1e9, 0)
+	newSub := func(i int, verifier func(context.Context, *vhdr.Header) error) *p2p.Subscriber[*vhdr.Header] {
+		ps, err := pubsub.NewGossipSub(ctx, mn.Hosts()[i], pubsub.WithMessageSignaturePolicy(pubsub.StrictNoSign))
+		if err != nil {
+			panic(err)
+		}
+		sub, err := p2p.NewSubscriber[*vhdr.Header](ps, pubsub.DefaultMsgIdFn, p2p.WithSubscriberNetworkID(peers.NetworkID))
+		if err != nil {
+			panic(err)
+		}
+		if err := sub.Start(ctx); err != nil {
+			panic(err)
+		}
+		if err := sub.SetVerifier(verifier); err != nil {
+			panic(err)
+		}
+		return sub
+	}
+	entered := make(chan uint64, 16)
+	release := make(chan struct{})
+	receiver := newSub(0, func(ctx context.Context, h *vhdr.Header) error {
+		entered <- h.H
+		select {
+		case <-release:
+			return nil
+		case <-ctx.Done():
+			return ctx.Err()
+		}
+	})
+	sender := newSub(1, func(context.Context, *vhdr.Header) error { return nil })
+	defer receiver.Stop(ctx) //nolint:errcheck
+	defer sender.Stop(ctx)   //nolint:errcheck
+	evs, err := mn.Hosts()[0].EventBus().Subscribe(&event.EvtPeerIdentificationCompleted{})
+	if err != nil {
+		panic(err)
+	}
+	if err := mn.ConnectAllButSelf(); err != nil {
+		panic(err)
+	}
+	select {
+	case <-evs.Out():
+	case <-time.After(3 * time.Second):
+	}
+	ssub, err := sender.Subscribe()
+	if err != nil {
+		panic(err)
+	}
+	defer ssub.Cancel()
+	rsub, err := receiver.Subscribe()
+	if err != nil {
+		panic(err)
+	}
+	defer rsub.Cancel()
+	first, second := "lost", "lost"
+	if err := sender.Broadcast(ctx, chain[0], pubsub.WithReadiness(pubsub.MinTopicSize(1))); err != nil {
+		first = "broadcasterr"
+	}
+	select {
+	case h := <-entered:
+		if h == 1 {
+			first = "seen"
+		}
+	case <-time.After(5 * time.Second):
+	}
+	if err := sender.Broadcast(ctx, chain[1]); err != nil {
+		second = "broadcasterr"
+	}
+	select {
+	case h := <-entered:
+		if h == 2 {
+			second = "seen"
+		}
+	case <-time.After(4 * time.Second):
+	}
+	close(release)
+	delivered := 0
+	for i := 0; i < 2; i++ {
+		rctx, rcancel := context.WithTimeout(ctx, 3*time.Second)
+		if h, err := rsub.NextHeader(rctx); err == nil && h != nil && (h.H == 1 || h.H == 2) {
+			delivered++
+		}
+		rcancel()
+	}
+	emit("C11 kind=gossip => first=%s second=%s delivered=%d", first, second, delivered)
 }
